@@ -57,7 +57,7 @@ def tlc_trace(c, k, trace, timeout):
     with open(os.path.join(work, "Trace.cfg"), "w") as f:
         f.write(TRACE_CFG)
     out = os.path.join(work, "tlc.out")
-    cmd = ["java", "-XX:+UseParallelGC", "-Xss256m", "-Xmx3g", "-cp", JAVA_CP, "tlc2.TLC", "-config", "Trace.cfg",
+    cmd = ["java", "-XX:+UseParallelGC", "-Xss256m", "-Xmx3g", "-Djava.io.tmpdir=" + os.path.dirname(work), "-cp", JAVA_CP, "tlc2.TLC", "-config", "Trace.cfg",
            "-metadir", os.path.join(work, "meta"), "-workers", "1", "-deadlock", "DeterminismTrace.tla"]
     res = TLCResult()
     t0 = time.time()
